@@ -1,7 +1,10 @@
 """Per-property manifest texts (consumed by tools_manifest.py)."""
 
 NOTES = (
-    "Static analysis only (DESIGN.md).  Each check decides the structural "
+    "Static analysis only (DESIGN.md).  Every check also evaluates G-STATE "
+    "(rule R<nn>.S): the census of state that outlives one use in the "
+    "modules of the property's anchors equals the reviewed "
+    "chamlint/reference_state.json.  Each check decides the structural "
     "clauses listed in its level text on the current /repo working tree and "
     "says which part of the behavioural property it leaves undecided.  "
     "Genuine defects found by the rules are either repaired in /repo "
